@@ -601,7 +601,10 @@ class Machine:
                         nxt = self.switch(fr, st)
                     elif k == 'call':
                         args2 = [self.operand(fr, a) for a in st[3]]
-                        v = self.call(st[2], args2, fr)
+                        if st[2].startswith(('move _', 'copy _', 'move (', 'copy (')):
+                            v = self.call_value(self.operand(fr, MIR.parse_operand(st[2])), args2)
+                        else:
+                            v = self.call(st[2], args2, fr)
                         if st[4] is None: raise Panic('diverging call returned: ' + st[2])
                         self.store(self.place(fr, st[1]), v)
                         nxt = st[4]
